@@ -24,15 +24,11 @@ Section Oracle.
   Definition has_checker : bool := negb (is_nil pre && is_nil post).
 
   (** invariants that apply around this kind of callable *)
-  Definition invs_before : list contract :=
-    match k_invs c, k_kind c with
-    | Some invs, KMethod | Some invs, KPropGet | Some invs, KPropSet | Some invs, KPropDel => invs
-    | _, _ => []
-    end.
+  Definition invs_before : list contract := around_invs c.
   Definition invs_after : list contract :=
     match k_invs c, k_kind c with
-    | Some invs, KMethod | Some invs, KPropGet | Some invs, KPropSet | Some invs, KPropDel
-    | Some invs, KInit => invs
+    | Some _, KMethod | Some _, KPropGet | Some _, KPropSet | Some _, KPropDel => around_invs c
+    | Some invs, KInit => invs ++ k_invs_set c
     | _, _ => []
     end.
 
@@ -268,7 +264,7 @@ Section Oracle.
     List.length (filter (fun e => match e with EvError k' _ => Z.eqb k k' | _ => false end) t).
 
   Definition all_contracts : list contract :=
-    List.concat pre ++ post ++ match k_invs c with Some l => l | None => [] end.
+    List.concat pre ++ post ++ match k_invs c with Some l => l ++ k_invs_set c | None => [] end.
 
   (** on how many inheritance paths a contract reaches the callable (1 unless a diamond lists it once per path) *)
   Definition paths_of (k : contract) : nat :=
@@ -281,7 +277,7 @@ Section Oracle.
     && forallb (fun k => Nat.leb (count_cond (cid k) t)
                                  ((paths_of k * (if clambda k then 2 else 1))
                                   * (if existsb (fun i => Z.eqb (cid i) (cid k))
-                                                (match k_invs c with Some l => l | None => [] end) then 2 else 1)))
+                                                (match k_invs c with Some l => l ++ k_invs_set c | None => [] end) then 2 else 1)))
                all_contracts
     (* groups in order, each up to its first falsy condition, until one holds *)
     && (if benign_to_body && invs_hold_ invs_before st0 && has_checker
@@ -387,6 +383,78 @@ Section Oracle.
                   | _ => true
                   end) t.
 
+  (** *** C11, second sentence: an exception raised by a condition, a truth test, a capture, an error factory or the
+      body is the end of the call and surfaces as that very exception (or as the library's wrapper chaining it) *)
+  Definition kind_of_cond (k : Z) : ckind :=
+    match find (fun x => Z.eqb (cid x) k) all_contracts with Some x => ckind_ x | None => CKPlain end.
+  Definition kind_of_snap (sd : Z) : ckind :=
+    match find (fun x => Z.eqb (sid x) sd) snaps with Some x => skind x | None => CKPlain end.
+  (* a coroutine is only run where it is awaited: on an async callable *)
+  Definition runs (kd : ckind) : bool := match kd, m with CKPlain, _ => true | _, Async => true | _, Sync => false end.
+
+  Definition raised_at (e : event) : option Z :=
+    match e with
+    | EvCond _ k kw st => if runs (kind_of_cond k)
+                          then match u_cond U k kw st with CRaise x | CBoolRaise x => Some x | CRet _ => None end
+                          else None
+    | EvCapture sd kw st => if runs (kind_of_snap sd)
+                            then match u_capture U sd kw st with CapRaise x => Some x | CapRet _ => None end
+                            else None
+    | EvError k kw => match u_error U k kw with ERaise x => Some x | _ => None end
+    | EvBody _ st => match fst (u_body U args kwargs st) with BRaise x => Some x | BRet _ => None end
+    end.
+
+  Fixpoint first_raised (t : list event) : option (Z * list event) :=
+    match t with
+    | [] => None
+    | e :: rest => match raised_at e with Some x => Some (x, rest) | None => first_raised rest end
+    end.
+
+  Definition spec_C11_surface (t : list event) (r : pv + exn) : bool :=
+    match first_raised t with
+    | None => true
+    | Some (x, rest) =>
+        is_nil rest
+        && match r with
+           | inr (XObj y) => Z.eqb x y
+           | inr (XLib _ (Some y)) => Z.eqb x y
+           | _ => false
+           end
+    end.
+
+  (** *** C03 on whole calls, as the property states it: around a call of a method or a property accessor the
+      invariants declared for calls - all of them, in order, up to the first that does not hold - are evaluated
+      before the body, and none that was declared for attribute assignments only *)
+  Definition inv_ids_before_body (t : list event) : list Z :=
+    (fix go (t : list event) : list Z :=
+       match t with
+       | EvCond RInv k _ _ :: rest => k :: go rest
+       | EvCond _ _ _ _ :: _ | EvCapture _ _ _ :: _ | EvBody _ _ :: _ => []
+       | EvError _ _ :: rest => go rest
+       | [] => []
+       end) t.
+
+  Definition call_invs : list contract :=
+    match k_invs c, k_kind c with
+    | Some invs, KMethod | Some invs, KPropGet | Some invs, KPropSet | Some invs, KPropDel => invs
+    | _, _ => []
+    end.
+
+  Definition spec_C03_call (t : list event) (r : pv + exn) : bool :=
+    if negb (forallb (fun i => is_ok (inv_val_ st0 i) && is_ok (error_of U RInv i [("self", self)] st0)) call_invs) then true
+    else
+      let (ids, ok) := evaluated_prefix (inv_holds_ st0) call_invs in
+      let expected := ids ++ (if ok then []
+                              else match find (fun k => negb (inv_holds_ st0 k)) call_invs with
+                                   | Some k => if reeval_expected k then [cid k] else []
+                                   | None => []
+                                   end) in
+      zlist_eqb (inv_ids_before_body t) expected.
+
+  (** the class of the recorded finding D30 *)
+  Definition kf_C03_setter_class : bool :=
+    match k_kind c with KPropSet => negb (is_nil (setattr_list c)) | _ => false end.
+
   (** *** C09 *)
   Definition error_events_ok (t : list event) : bool :=
     forallb (fun e => match e with
@@ -406,7 +474,7 @@ Section Oracle.
     error_events_ok t
     && forallb (fun k => Nat.leb (count_error (cid k) t)
                                  (paths_of k * (if existsb (fun i => Z.eqb (cid i) (cid k))
-                                                           (match k_invs c with Some l => l | None => [] end) then 2 else 1)))
+                                                           (match k_invs c with Some l => l ++ k_invs_set c | None => [] end) then 2 else 1)))
                all_contracts
     && outcome_as_expected r.
 
